@@ -95,7 +95,7 @@ def teardown(ctx):
 
 
 def generate(ctx):
-    total = ctx.scale(1200, 6000)
+    total = ctx.scale(900, 6000)
     rng = random.Random(subseed("c20", "plan", ctx.seed, ctx.shard))
     kinds = [k for k, _ in KINDS]
     weights = [w for _, w in KINDS]
